@@ -35,6 +35,8 @@ def points_for(shells, npts=None):
            np.array(shells[-1].center) + np.array([0.3, 0.0, 0.0])]
     if npts == 1:
         return np.array([pts[4]])
+    if npts is not None and npts < 8:  # point-count ladder: the generic points first (an unsymmetric 3x3 block at 3)
+        return np.array([pts[4], pts[5], pts[6], pts[1], pts[7], pts[2], pts[3]][:npts])
     if npts == 50:
         extra = [c + np.array(hvec("evpt-x%d" % i, 3, -3.0, 3.0)) for i in range(42)]
         return np.array(pts + extra)
@@ -53,7 +55,7 @@ def single_shapes(tier):
 
 def bounds(tier):
     return {"l": "0..6", "single_shell_shapes": len(single_shapes(tier)), "types": 2, "order_triples": 125,
-            "backends": ["general", "direct", "unknown name"], "points": "8 (classes) ; 1 ; 50",
+            "backends": ["general", "direct", "unknown name"], "points": "8 (classes) ; every count 1..7 ; 50",
             "multi_shell": "2-4 shells, all type patterns, transforms none/square/rect"}
 
 
@@ -65,6 +67,11 @@ def configs(tier, seed):
                 out.append({"kind": "single", "l": l, "K": K, "M": M, "pat": pat, "t": t, "npts": 8})
     for l, npts in ((2, 1), (5, 50), (0, 50), (6, 1)):
         out.append({"kind": "single", "l": l, "K": 2, "M": 2, "pat": 1, "t": "spherical", "npts": npts})
+    for npts in (2, 3, 4, 5, 6, 7):  # every small point count (a layout guess can only go wrong at a particular count)
+        out.append({"kind": "single", "l": 1 + npts % 2, "K": 2, "M": 1, "pat": 1, "t": ("cartesian", "spherical")[npts % 2],
+                    "npts": npts})
+        out.append({"kind": "basis", "n": 2, "start": 0, "types": ["spherical", "cartesian"], "tr": ("none", "rect")[npts % 2],
+                    "npts": npts})
     for n in (2, 3, 4):
         for st in ([0] if tier == "quick" else [0, 1, 2, 3, 4, 5]):
             tps = al.type_patterns(n)
